@@ -11,3 +11,4 @@ import MW.Props.C10
 #print axioms MW.Props.C10.callbacks_keep_config
 #print axioms MW.Props.C10.C10_flag_step
 #print axioms MW.Props.C10.C10_flag_history
+#print axioms MW.Props.C10.value_moving_are_source_messages
